@@ -230,7 +230,7 @@ Section Cells.
   Inductive opt_imps : list string -> list (imp_entry (T:=T)) -> Prop :=
   | oi_nil : opt_imps [] []
   | oi_imp t v x rest es :
-      String.prefix "imp" t = true -> fl P v = Some x -> opt_imps rest es ->
+      String.prefix "imp" t = true -> tf P v = Some x -> opt_imps rest es ->
       opt_imps (t :: v :: rest) ((imp_particles t, x) :: es)
   | oi_other t rest n es :
       consumes t rest n -> opt_imps (skipn n rest) es -> opt_imps (t :: rest) es.
@@ -433,7 +433,7 @@ Section Cells.
     | t :: r =>
         if String.prefix "imp" t then
           match r with
-          | v :: r' => match fl P v with
+          | v :: r' => match tf P v with
                        | Some x => option_map (cons (imp_particles t, x)) (scan_imps r')
                        | None => None
                        end
@@ -449,7 +449,7 @@ Section Cells.
     - destruct toks; [|cbn in Hn; lia]. cbn in H. injection H as <-. apply oi_nil.
     - destruct toks as [|t r]; [cbn in H; injection H as <-; apply oi_nil|].
       cbn [scan_imps] in H. destruct (String.prefix "imp" t) eqn:Ep.
-      + destruct r as [|v r']; [discriminate|]. destruct (fl P v) as [x|] eqn:Ef; [|discriminate].
+      + destruct r as [|v r']; [discriminate|]. destruct (tf P v) as [x|] eqn:Ef; [|discriminate].
         destruct (scan_imps r') as [xs'|] eqn:Es; [|discriminate]. cbn in H. injection H as <-.
         apply oi_imp; [exact Ep|exact Ef|]. apply IH; [cbn in Hn; lia|exact Es].
       + destruct (inert_b t) eqn:Ei; [|discriminate].
